@@ -6,6 +6,8 @@ import Nutree.Model.Iter
 import Nutree.Spec.Iter
 import Nutree.Generated.Tables
 import Nutree.Lemmas.Iter
+import Nutree.Lemmas.IterLevel
+import Nutree.Lemmas.Visit
 namespace Nutree.C06
 open Nutree T
 
@@ -30,5 +32,72 @@ theorem skip_spellings :
     callTraversalCb .retSkipCls = .skip ∧ callTraversalCb .retSkipInst = .skip ∧
     callTraversalCb .raiseSkip = .skip := by
   simp [callTraversalCb]
+
+/-- T1: the queue loop of `_iter_level` equals the structural level order, for all four
+(revert, toggle) variants. -/
+theorem iterLevel_spec (rev tog : Bool) (ks : List T) :
+    iterLevel rev tog ks = specLevel rev tog ks := iterLevel_eq_specLevel rev tog ks
+
+/-- T2: level order (any direction) contains every node of the forest exactly as often as
+pre-order does. -/
+theorem specLevel_perm (rev tog : Bool) (ks : List T) :
+    (specLevel rev tog ks).Perm (flatL ks) := specLevel_perm_flatL rev tog ks
+
+/-- T2: post order contains every node of the forest exactly as often as pre-order does. -/
+theorem post_perm (ks : List T) : (postL ks).Perm (flatL ks) := postL_perm_flatL ks
+
+/-- T3: the iterator equals its specification for every method and add_self. -/
+theorem iterator_spec (m : Method) (addSelf : Bool) (t : T) :
+    iterator m addSelf t = specIterator m addSelf t := by
+  cases m <;> cases addSelf <;>
+    simp [iterator, iterHandler, specIterator, specOrder, iterPreL_flat, iterPostL_post,
+      iterLevel_eq_specLevel]
+
+/-- T4: each ordered method yields a permutation of the branch (plus the start node iff
+add_self). -/
+theorem iterator_perm (m : Method) (addSelf : Bool) (t : T) (xs : List T) :
+    iterator m addSelf t = some xs →
+      xs.Perm ((if addSelf then [t] else []) ++ flatL t.kids) := by
+  rw [iterator_spec]
+  intro h
+  cases m <;> cases addSelf <;> simp [specIterator, specOrder] at h <;> subst h <;>
+    simp [specLevel_perm_flatL, postL_perm_flatL, List.Perm.refl]
+  exact (List.perm_append_singleton _ _).trans (List.Perm.cons _ (postL_perm_flatL _))
+
+/-- T5: independent characterisation of levels: level `d` of the forest = the pre-order
+nodes of depth `d`, in pre-order. -/
+theorem levelsL_depth (ks : List T) (d : Nat) :
+    (levelsL ks).getD d [] = ((withDepthL 0 ks).filter (fun p => p.2 == d)).map (·.1) := by
+  simpa using levelsL_getD_depth ks 0 d
+
+/-- T6: visit equals its specification (order = pruned order, cut at the first halting
+answer; outcome = value carried). -/
+theorem visit_spec (f : NodeId → Sig) (m : Method) (addSelf : Bool) (t : T) :
+    ((visit (fun n => f n.id) m addSelf t).1.map T.id, (visit (fun n => f n.id) m addSelf t).2)
+      = specVisit f m addSelf t := by
+  cases m with
+  | pre => exact visit_pre_spec f addSelf t
+  | post => exact visit_post_spec f addSelf t
+  | level => exact visit_level_spec f addSelf t
+  | levelRtl | zigzag | zigzagRtl | random | unordered => simp [visit, specVisit]
+
+/-- T7: with a callback that never signals, visit calls the callback on exactly the
+iterator's sequence. -/
+theorem visit_eq_iter (cb : T → Sig) (m : Method) (addSelf : Bool) (t : T)
+    (hm : m = .pre ∨ m = .post ∨ m = .level) (h : ∀ n, cb n = .cont) :
+    some (visit cb m addSelf t).1 = iterator m addSelf t ∧ (visit cb m addSelf t).2 = .ret none := by
+  rcases hm with rfl | rfl | rfl <;> cases addSelf <;>
+    simp [visit, iterator, iterHandler, h, visitPreL_cont cb h, visitPostL_cont cb h,
+      visitLevel_cont cb h, iterPreL_flat, iterPostL_post, haltOut, sigHalt]
+
+/-- T8: dispatch table regenerated from the source: a method has an `_iter_<value>` handler
+in the code iff the model has one, likewise for `_visit_<value>`; every method value is an
+`IterMethod` member. -/
+theorem dispatch_table (m : Method) :
+    ((iterHandler m []).isSome = Nutree.Generated.iterHandlers.contains m.value) ∧
+    (((visit (fun _ => Sig.cont) m false (mkRoot [])).2 != VOut.notImplemented)
+        = Nutree.Generated.visitHandlers.contains m.value) ∧
+    (Nutree.Generated.iterMethods.map (·.2)).contains m.value = true := by
+  cases m <;> decide
 
 end Nutree.C06
